@@ -315,7 +315,9 @@ PROPS = {
                    f"{BGSM}:BackgroundService.stop", "frequenz.sdk.actor._run_utils:run"],
         lemmas=[],
         bounded=[dict(kind="native_script", name="restart policy on the real Actor (scripted outcomes, restart limits, second start, "
-                                                 "restart delay of a subclass)", module="native.explore_actor")],
+                                                 "restart delay of a subclass)", module="native.explore_actor"),
+                 dict(kind="native_script", name="a real actor of the SDK (the resampling actor with its two internal tasks): stop() returns "
+                                                 "only when none of the tasks it spawned is running", module="native.explore_resampler")],
         level="proof",
         explanation="_run_loop: loop invariant (one invocation of the run logic per restart, within the limit) with the run logic as "
                     "a scripted collaborator that may return, raise Exception, be cancelled or raise another BaseException at "
